@@ -28,5 +28,10 @@ CONSTANTS
   BugCancelNoWake = FALSE
   BugRefill = TRUE
   BugNoClose = FALSE
+  Redis6 = FALSE
+  BugPurgeStop = FALSE
+  BugPendingExpires = FALSE
+  BugSkipEmbedded = FALSE
+  RaceFlight = FALSE
 INVARIANTS Positional
 CHECK_DEADLOCK FALSE
